@@ -679,7 +679,8 @@ def run_case(case, repo_checks=True):
 
     R.bw_sleeps = sched.sleep_log
     lp = detsched.LinePreempter(sched, case.get('lines') or [],
-                                count=bool(case.get('count_lines')))
+                                count=bool(case.get('count_lines')),
+                                dense=bool(case.get('dense')))
     with patched(sched, case.get('adj'), case.get('agg'),
                  case.get('bw_threshold')):
         with lp:
@@ -688,6 +689,7 @@ def run_case(case, repo_checks=True):
             except HarnessError as e:
                 R.harness_error = e
     R.nlines = lp.n
+    R.ndense = lp.ndense
     for name, e in sched.errors:
         if not isinstance(e, (SchedAbort,)):
             R.harness_error = R.harness_error or HarnessError(
